@@ -2,25 +2,30 @@
 \* Validates traces recorded from the Go container against the reference semantics (C16).
 \* trace.ndjson: one JSON object per line:
 \*   {"e":"new","parts":[[..],..]}                      a new container (start of one recorded history)
-\*   {"e":"op","op":{...},"res":{...},"len":n}          one operation with its observed result and Length()
+\*   {"e":"op","op":{...},"res":{...},"len":n,"all":[[..],..]}
+\*        one operation on container op.c with its observed result, Length() of that container and the
+\*        bytes held by every container of the history afterwards (read with Peek, which changes nothing)
 EXTENDS Container, Json
 
 Trace == ndJsonDeserialize("trace.ndjson")
 
-VARIABLES q, l
-vars == <<q, l>>
+VARIABLES qs, l
+vars == <<qs, l>>
 
-Init == q = <<>> /\ l = 1
+Init == qs = << <<>> >> /\ l = 1
 
 New == /\ l <= Len(Trace) /\ Trace[l].e = "new"
-       /\ q' = Flat(Trace[l].parts)
+       /\ qs' = << Flat(Trace[l].parts) >>
        /\ l' = l + 1
 
 DoOp == /\ l <= Len(Trace) /\ Trace[l].e = "op"
-        /\ \E x \in Step(q, Trace[l].op) :
+        /\ Trace[l].op.c \in 1..Len(qs)
+        /\ \E x \in MStep(qs, Trace[l].op) :
               /\ x.res = Trace[l].res
-              /\ Len(x.q) = Trace[l].len
-              /\ q' = x.q
+              /\ Len(x.qs[Trace[l].op.c]) = Trace[l].len
+              /\ Len(x.qs) = Len(Trace[l].all)
+              /\ \A i \in 1..Len(x.qs) : x.qs[i] = Trace[l].all[i]
+              /\ qs' = x.qs
         /\ l' = l + 1
 
 Next == New \/ DoOp
